@@ -777,19 +777,50 @@ func builtinLenLessThanOrEqual(_ *lisp.LEnv, args *lisp.LVal) *lisp.LVal {
 	return lenConstraint(args, func(length, comparison int) bool { return length > comparison })
 }
 
+// boundCmp compares input with bound as NUMBERS: -1, 0 or 1, and false when
+// input is no number.  Two ints are compared as ints: above 2^53 float64
+// cannot tell neighbouring integers apart, and a bound read through it
+// admits (or refuses) values on the wrong side.
+func boundCmp(input, bound *lisp.LVal) (int, bool) {
+	if input.Type == lisp.LInt && bound.Type == lisp.LInt {
+		switch {
+		case input.Int < bound.Int:
+			return -1, true
+		case input.Int > bound.Int:
+			return 1, true
+		}
+		return 0, true
+	}
+	a, ok := lisp.GoFloat64(input)
+	if !ok {
+		return 0, false
+	}
+	b, ok := lisp.GoFloat64(bound)
+	if !ok {
+		return 0, false
+	}
+	switch {
+	case a < b:
+		return -1, true
+	case a > b:
+		return 1, true
+	}
+	return 0, true
+}
+
 // Checks value is greater than specified value
 func builtinGreaterThan(_ *lisp.LEnv, args *lisp.LVal) *lisp.LVal {
-	comparison, ok := lisp.GoFloat64(args.Cells[0])
-	if !ok {
+	if _, ok := lisp.GoFloat64(args.Cells[0]); !ok {
 		return lisp.ErrorConditionf(FailedConstraint, "You cannot compare %v to a number", args.Cells[0])
 	}
+	bound := args.Cells[0]
 	// NB these aren't normal functions - they aren't looking for an array of args
 	return newValidator(lisp.Formals("input"), func(env *lisp.LEnv, input *lisp.LVal) *lisp.LVal {
-		compareTo, ok := lisp.GoFloat64(input)
+		c, ok := boundCmp(input, bound)
 		if !ok {
 			return lisp.ErrorConditionf(FailedConstraint, "Value cannot be compared")
 		}
-		if comparison >= compareTo {
+		if c <= 0 {
 			return lisp.ErrorConditionf(FailedConstraint, "Supplied value was less than the allowed value")
 		}
 		return lisp.Nil()
@@ -802,14 +833,15 @@ func builtinGreaterThanOrEqual(_ *lisp.LEnv, args *lisp.LVal) *lisp.LVal {
 	if !ok {
 		return lisp.ErrorConditionf(FailedConstraint, "You cannot compare %v to a number", args.Cells[0])
 	}
+	bound := args.Cells[0]
 	// NB these aren't normal functions - they aren't looking for an array of args
 	return newValidator(lisp.Formals("input"), func(env *lisp.LEnv, input *lisp.LVal) *lisp.LVal {
-		compareTo, ok := lisp.GoFloat64(input)
+		c, ok := boundCmp(input, bound)
 		if !ok {
 			return lisp.ErrorConditionf(FailedConstraint, "Value cannot be compared")
 		}
-		if comparison > compareTo {
-			return lisp.ErrorConditionf(FailedConstraint, "Supplied value %v was less than the allowed value %v", compareTo, comparison)
+		if c < 0 {
+			return lisp.ErrorConditionf(FailedConstraint, "Supplied value %v was less than the allowed value %v", input, comparison)
 		}
 		return lisp.Nil()
 	})
@@ -817,17 +849,17 @@ func builtinGreaterThanOrEqual(_ *lisp.LEnv, args *lisp.LVal) *lisp.LVal {
 
 // Checks value is less than specified value
 func builtinLessThan(_ *lisp.LEnv, args *lisp.LVal) *lisp.LVal {
-	comparison, ok := lisp.GoFloat64(args.Cells[0])
-	if !ok {
+	if _, ok := lisp.GoFloat64(args.Cells[0]); !ok {
 		return lisp.ErrorConditionf(FailedConstraint, "You cannot compare %v to a number", args.Cells[0])
 	}
+	bound := args.Cells[0]
 	// NB these aren't normal functions - they aren't looking for an array of args
 	return newValidator(lisp.Formals("input"), func(env *lisp.LEnv, input *lisp.LVal) *lisp.LVal {
-		compareTo, ok := lisp.GoFloat64(input)
+		c, ok := boundCmp(input, bound)
 		if !ok {
 			return lisp.ErrorConditionf(FailedConstraint, "Value cannot be compared")
 		}
-		if comparison <= compareTo {
+		if c >= 0 {
 			return lisp.ErrorConditionf(FailedConstraint, "Supplied value was greater than the allowed value")
 		}
 		return lisp.Nil()
@@ -836,17 +868,17 @@ func builtinLessThan(_ *lisp.LEnv, args *lisp.LVal) *lisp.LVal {
 
 // Checks value is less than or equal specified value
 func builtinLessThanOrEqual(_ *lisp.LEnv, args *lisp.LVal) *lisp.LVal {
-	comparison, ok := lisp.GoFloat64(args.Cells[0])
-	if !ok {
+	if _, ok := lisp.GoFloat64(args.Cells[0]); !ok {
 		return lisp.ErrorConditionf(FailedConstraint, "You cannot compare %v to a number", args.Cells[0])
 	}
+	bound := args.Cells[0]
 	// NB these aren't normal functions - they aren't looking for an array of args
 	return newValidator(lisp.Formals("input"), func(env *lisp.LEnv, input *lisp.LVal) *lisp.LVal {
-		compareTo, ok := lisp.GoFloat64(input)
+		c, ok := boundCmp(input, bound)
 		if !ok {
 			return lisp.ErrorConditionf(FailedConstraint, "Value cannot be compared")
 		}
-		if comparison < compareTo {
+		if c > 0 {
 			return lisp.ErrorConditionf(FailedConstraint, "Supplied value was greater than the allowed value")
 		}
 		return lisp.Nil()
